@@ -394,8 +394,8 @@ fn corpus(sink: &mut Sink) {
         GTree::leaf(GValue::PI(18, None)),
         GTree::leaf(GValue::PI(18, Some("".into()))),
     ];
-    // smallest inputs of the two defects known from reading (DESIGN.md section 8 row 15) first,
-    // so that the replay attached to their signature is minimal
+    // smallest inputs of the two defects of DESIGN.md section 8 row 15 (fixed in /repo by a361fb0
+    // and 3b5a0f1) first, so that a regression reports the minimal replay
     {
         let mut xot = Xot::new();
         let vocab = Vocab::standard(&mut xot);
